@@ -118,7 +118,7 @@ def run_case(row: dict[str, Any]) -> dict[str, Any]:
         via = row.get("expected_via", "constructor")
         if row["expected_set"] and via == "constructor":
             kw["expected_name"] = row.get("expected", EXPECTED)
-        cli = sim.client("10.0.0.1", 6053, row["password"], **kw)
+        cli = sim.client(None, 6053, row["password"], **kw)      # (address family rotates)
         if row["expected_set"] and via == "setter-before-start":
             cli.expected_name = row.get("expected", EXPECTED)
         if via == "setter-between-phases":
